@@ -11,7 +11,9 @@ Oracle:
     200 x the median cost of the pipeline on a trivial program (>= 10 s; the cost is dominated by the standard
     library, which is re-parsed for every input, so one size class suffices for inputs <= 64 KiB); such an input
     is re-run alone with 10 x that bound, and only a second overrun is a violation (c06:nontermination),
-    otherwise the input is reported inconclusive-slow. Wall-clock time is never a verdict;
+    otherwise the input is reported inconclusive-slow. A child that dies of an allocation failure at its 3 GiB
+    address-space bound (parser loops allocate on every iteration) and does so again when the input is run alone
+    is reported under the same key. Wall-clock time is never a verdict;
   * every located diagnostic (errors and warnings, in any file) has 0 <= start <= end <= len(file) with both ends
     on character boundaries (c06:span-outside-file:<kind>, c06:span-not-on-char-boundary:<kind>);
   * check_program's result agrees with the diagnostics list; check_program true => emit_program completes.
@@ -208,12 +210,18 @@ def run(ctx):
     build.ensure_harness(["vh-front"])
     if ctx.replay_only:
         return replay(ctx)
-    bindir = build.ensure_toolchain("rel", need_boots=False)
-    dora = os.path.join(bindir, "dora")
     opts = getattr(ctx, "opts", {})
     count = int(opts.get("count", ctx.pick(6000, 150000)))
     fams = opts.get("families", DEFAULT_FAMILIES)
     cli_every = int(opts.get("cli_every", CLI_EVERY))
+    with_cli = opts.get("cli", "1") != "0" and cli_every > 0     # --opt cli=0: in-process part only (no toolchain build)
+    dora = os.path.join(build.ensure_toolchain("rel", need_boots=False), "dora") if with_cli else None
+    extra_known = os.environ.get("VERIF_EXTRA_KNOWN")            # development aid: a proposed known-findings file
+    if extra_known:
+        with open(extra_known) as f:
+            for e in json.load(f)["findings"]:
+                if e["property"] == "C06" and e.get("status") == "known":
+                    ctx._known.setdefault(e["key"], e["what"])
     ctx.rule = ("case = (family, text) generated from (seed, index); 23 families: corpus file as is, CR/CRLF/BOM variants, "
                 "token soup, random UTF-8, token delete/dup/swap/replace/insert, chunk delete, truncate, splice, delimiter "
                 "flip, nesting <= 200, mixed line endings, multi-byte insertion, grammar-directed random programs and "
@@ -226,9 +234,9 @@ def run(ctx):
                        "termination bound: CPU time of one input <= 200 x median cost of a trivial program (>= 10 s), "
                        "re-checked alone with 10 x that bound before it counts as a violation",
                        "harness built with panic=unwind, opt-level 2, no debug assertions (the shipped profile is panic=abort)"]
-    ctx.required_counters = ["cases", "parse_clean", "check_ok", "emitted", "cli_runs"]
+    ctx.required_counters = ["cases", "parse_clean", "check_ok", "emitted"] + (["cli_runs"] if with_cli else [])
     clidir = scratch("c06-cli")
-    kv = {"families": fams, "cli_every": cli_every, "clidir": clidir}
+    kv = {"families": fams, "cli_every": cli_every if with_cli else 0, "clidir": clidir}
     r = inproc.run_sharded("vh-front", "front", ctx.seed, count, "c06", timeout=ctx.pick(900, 3000), kv=kv)
 
     # ---- in-process results -------------------------------------------------------------------------------
@@ -313,7 +321,12 @@ def run(ctx):
             ctx.inconc("a harness child died (rc=%s) before its first case: %s" % (d["rc"], d["log"][-300:]))
             continue
         ctx.observe("dead%d" % d["idx"])
-        if rc is not None and rc != 0 and rc != EXIT_SLOW:
+        if rc is not None and rc != 0 and rc != EXIT_SLOW and "memory allocation of" in (out or ""):
+            ctx.violation("c06:nontermination",
+                          "case %s exhausted the 3 GiB address-space bound of the harness child (unbounded allocation, i.e. a loop "
+                          "that does not terminate; a normal input needs < 0.5 GiB): %s" % (d["idx"], out[-300:]),
+                          files={"input.dora": d["input"]})
+        elif rc is not None and rc != 0 and rc != EXIT_SLOW:
             ctx.violation("c06:child-death:rc=%s" % rc,
                           "the front end ended the process (rc=%s; abort / stack overflow / allocation failure) on case %s: %s"
                           % (rc, d["idx"], (out or d["log"])[-500:]), files={"input.dora": d["input"]})
@@ -326,7 +339,8 @@ def run(ctx):
         ctx.inconc("shard %d hit the wall-clock watchdog" % s)
 
     # ---- the real CLI on ~2 % of the inputs -----------------------------------------------------------------
-    run_cli(ctx, clidir, dora)
+    if with_cli:
+        run_cli(ctx, clidir, dora)
     shutil.rmtree(clidir, ignore_errors=True)
 
     seen = set()
